@@ -38,13 +38,16 @@ theorem primitive_map_spec :
 
 /-- **C11a.**  Every `$ref` in the generated definitions is the name of a generated definition —
 for every meta-model whose input is closed under references (`refsClosed`, decidable; what the
-intermediate layer guarantees when every class named by a property is concrete or has concrete
-descendants). -/
+intermediate layer guarantees: since the repair of C11-F1 `intermediate._verify` refuses an abstract
+class without concrete descendants that is named by a property, so every class named by a property
+is concrete or has concrete descendants.  The harness evaluates `refsClosed` on every model the
+front end accepts and reports a model for which it fails). -/
 theorem refs_resolve (mm : MM) (defs : Defs) (h : generate mm = .ok defs) (hwf : refsClosed mm = true) :
     ∀ r ∈ refsDefs defs, hasKey r defs = true :=
   generate_refs_resolve mm defs h hwf
 
-/-- an abstract class without concrete descendants, referenced by a property (finding C11-F1) -/
+/-- an abstract class without concrete descendants, referenced by a property (former finding C11-F1:
+the front end accepted it; now refused by `intermediate._verify`, so it no longer reaches `generate`) -/
 def ghostMM : MM := ⟨[
   .cls ⟨ascii "Ghost", true, false, [], [⟨ascii "z", false, true, .prim .int none, []⟩], []⟩,
   .cls ⟨ascii "Holder", false, false, [],
@@ -55,8 +58,9 @@ def refsOk : JsonSchema.Res Defs → Bool
   | .ok d => (refsDefs d).all (fun r => hasKey r d)
   | _ => true
 
-/-- The unconditional statement is FALSE of the faithful model (and of the code: the generated
-`Holder.properties.ghost` is `{"$ref": "#/definitions/Ghost"}` and there is no `Ghost`). -/
+/-- Why `refs_resolve` keeps its hypothesis: as a statement about `generate` ALONE (every input of the
+type `MM`, also those the repaired front end refuses) the unconditional statement is false: the generated
+`Holder.properties.ghost` is `{"$ref": "#/definitions/Ghost"}` and there is no `Ghost`. -/
 theorem refs_resolve_full_fails :
     ¬ (∀ (mm : MM) (defs : Defs), generate mm = .ok defs → ∀ r ∈ refsDefs defs, hasKey r defs = true) := by
   intro h
